@@ -13,9 +13,10 @@
    Proved part: the impl model of the v1 page reader (Impl/RPages.v: read_data_page + the page part of
    read_col) reads every v1 data page of every layout (incl. DELTA_BINARY_PACKED) back to the page's
    denotation (C03_fp_read_page_v1_spec_partial), and so does the impl model of read_data_page_v2 with its
-   in-place fast paths for every v2 page (C03_fp_read_page_v2_spec_partial).  Missing: the page loop of
-   read_col over a chunk (dictionary replacement, `num` bookkeeping), the categorical / row-filter variants,
-   and the native decoders themselves (represented by the specification decoders; C11 proves the native
+   in-place fast paths for every v2 page (C03_fp_read_page_v2_spec_partial), and the impl model of the page
+   loop of read_col returns the denotation of every chunk (C03_fp_read_chunk_spec_partial).  Missing: the
+   row-group/file level of the reader (api.py: schema -> dtypes, pre-allocation, row-group iteration), the
+   categorical / row-filter variants, and the native decoders themselves (represented by the specification decoders; C11 proves the native
    hybrid reader equal to the specification for widths <= 24).  For the
    missing parts the reader is tied to the specification by the per-run oracle only
    (harness/props/C03.py: fastparquet's result = table_of on every generated file).                *)
@@ -24,7 +25,7 @@ From Coq Require Import NArith ZArith List Bool Arith.
 From Pq Require Import Base.Bytes Base.ListX Codec.Hybrid Thrift.Compact Format.Phys Format.Meta Format.Page
   Format.ChunkLayout Format.File Format.Enc
   Impl.RPages Proofs.HybridProofs Proofs.FormatCodecProofs Proofs.FormatPageProofs Proofs.FormatChunkProofs Proofs.RPagesProofs
-  Proofs.FormatFileProofs.
+  Proofs.FormatFileProofs Impl.RChunk Proofs.RChunkProofs Proofs.RefuseProofs.
 Import ListNotations.
 Open Scope list_scope.
 Open Scope N_scope.
@@ -115,6 +116,26 @@ Example C03_v2_delta_with_nulls_refused :
   = RBad "AssertionError: null delta-int not implemented".
 Proof. vm_compute. reflexivity. Qed.
 
+(* CHUNK level: impl model of the page loop of core.read_col (Impl/RChunk.v rd_chunk: driven by the row
+   count, dictionary pages replace `dic`, v1 pages through read_data_page + scatter, v2 pages through
+   read_data_page_v2, `num` advanced by num_values) over the bytes of ANY chunk the specification encoder
+   writes - any number of pages, v1 and v2 mixed, several dictionary pages, PLAIN fallback, any codec -
+   returns exactly the cells the chunk denotes. *)
+Theorem C03_fp_read_chunk_spec_partial :
+  forall (compress : Z -> bytes -> bytes) (decompress : Z -> N -> bytes -> option bytes),
+  (forall codec b, decompress codec (lenN b) (compress codec b) = Some b) ->
+  forall inplace cd codec rows its clock dict num acc contents,
+  Forall (item_wf cd) its ->
+  Forall (fun it => phdr_wf (fst (enc_item compress cd codec it)) = true) its ->
+  Forall (item_reader_ok inplace cd) its ->
+  items_contents cd dict its = Some contents ->
+  (length (concat (map (item_bytes compress cd codec) its)) <= length clock)%nat ->
+  rows = num + sumN (map item_nvals its) ->
+  rd_chunk decompress clock inplace cd codec rows dict (concat (map (item_bytes compress cd codec) its)) num acc
+  = ROk (rev acc ++ concat (map content_cells contents)).
+Proof. exact rd_chunk_spec. Qed.
+Print Assumptions C03_fp_read_chunk_spec_partial.
+
 (* why the `selfmade` guard of the raw-codes shortcut matters (appendix B mutant "drop `and selfmade`"):
    with the shortcut taken on a foreign page of index width 8 the model does not return the denotation *)
 Definition ex_sm_cd : coldesc := {| cd_type := INT32; cd_tlen := 0; cd_maxdef := 0 |}.
@@ -129,6 +150,15 @@ Theorem C03_selfmade_shortcut_on_foreign_page_refuted :
 Proof. repeat split; try (vm_compute; reflexivity). vm_compute. discriminate. Qed.
 Print Assumptions C03_selfmade_shortcut_on_foreign_page_refuted.
 
+(* C03_unsupported_refused on the impl models: for a value encoding outside the ones the reader implements
+   (DELTA_LENGTH_BYTE_ARRAY 6, DELTA_BYTE_ARRAY 7, BYTE_STREAM_SPLIT 9, BIT_PACKED 4, anything unknown) neither
+   page reader ever returns values, whatever the bytes *)
+Theorem C03_unsupported_refused : forall selfmade cd h raw r decompress inplace dic codec h2 us cs payload r2,
+  (supported_enc (d_enc h) = false -> rd_data_page selfmade cd h raw <> ROk r) /\
+  (supported_enc (d2_enc h2) = false -> rd_page_v2 decompress inplace cd dic codec h2 us cs payload <> ROk r2).
+Proof. intros. split; [apply rd_data_page_refuses|apply rd_page_v2_refuses]. Qed.
+Print Assumptions C03_unsupported_refused.
+
 (* the specification decoder never returns values for the value encodings outside the model: it says
    "unsupported" (DELTA_LENGTH_BYTE_ARRAY 6, DELTA_BYTE_ARRAY 7, BYTE_STREAM_SPLIT 9) whatever the bytes *)
 Theorem C03_spec_unsupported_refused : forall strict cd dict enc n b,
@@ -142,7 +172,7 @@ Print Assumptions C03_spec_unsupported_refused.
 (* whole file in the kernel: three pages over two row groups, optional INT64 column, dictionary with a
    second dictionary page, fallback to PLAIN, a v2 page with NULLs *)
 Definition ex3 : lfile :=
-  {| l_leaves := [ {| ll_name := [99]; ll_type := INT64; ll_tlen := 0; ll_optional := true; ll_conv := None; ll_logical := None |} ];
+  {| l_leaves := [ {| ll_name := [99]; ll_type := INT64; ll_tlen := 0; ll_optional := true; ll_conv := None; ll_logical := None; ll_scale := None; ll_prec := None |} ];
      l_rgs := [ [ {| lc_codec := 0%Z; lc_stats := true;
                      lc_items := [ LDict 2%Z [VNum 5; VNum 18446744073709551615];
                                    LData {| lp_v2 := false; lp_nvals := 4; lp_def := [BP [1; 0; 1; 1]];
